@@ -27,6 +27,7 @@ type Obligation struct {
 	Pos    string
 	Quant  bool
 	Batched bool
+	Host   string // function under verification when the obligation arose in an inlined helper
 	// results
 	Status  string // discharged | failed | unknown | trivial
 	Backend string
@@ -231,7 +232,7 @@ func (ex *Exec) oblige(st *State, kind, label string, props []string, goal *Term
 		return
 	}
 	name := fmt.Sprintf("%s/%s#%s", fnKey, kind, label)
-	ob := &Obligation{Name: name, Func: fnKey, Kind: kind, Label: label, Props: props, Goal: goal, Expect: "unsat",
+	ob := &Obligation{Name: name, Func: fnKey, Host: ex.fnKey, Kind: kind, Label: label, Props: props, Goal: goal, Expect: "unsat",
 		Hyps: append([]*Term(nil), st.PC...), Trace: append([]string(nil), st.Trace...)}
 	if pos.IsValid() {
 		p := ex.prog.Fset.Position(pos)
